@@ -959,6 +959,11 @@ SPECS = [
                 "super().can_trigger": ("action_gate", [], "bool")}),
     dict(group="Metrics", name="gen_convert_type", path="processor/context/metric_action.py", cls="MetricActionContext", func="_convert_type",
          params="(metric_type : str)", ret="str", args=["self", "metric_type"], env={"metric_type": ("metric_type", "str")}),
+    # ---- span actions (C20: plugins are optional)
+    dict(group="Spans", name="gen_span_can_trigger", path="processor/context/span_action.py", cls="SpanActionContext", func="can_trigger",
+         params="(has_processor : bool) (action_gate : bool)", ret="bool", args=["self"],
+         env={"self.trigger_context.config.has_span_processor": ("has_processor", "bool")},
+         calls={"super().can_trigger": ("action_gate", [], "bool")}),
     # ---- pending callbacks (C15)
     dict(group="Callbacks", name="gen_cb_next_line", path="processor/context/callback_context.py", cls="CallbackContext", func="__check_at_next_line",
          params="(c_event c_file c_func event file function_name : str)", ret="bool", args=["self", "event", "file", "function_name"], env={"event": ("event", "str"), "file": ("file", "str"), "function_name": ("function_name", "str"), "line": ("line", "Z"), "frame": ("tt", "unit"), "self.__event": ("c_event", "str"), "self.__filename": ("c_file", "str"), "self.__function_name": ("c_func", "str")}),
@@ -1097,6 +1102,7 @@ GROUPS = {           # generated file -> (imports, which properties' theorems ar
     "Registry": ("From Deep Require Import Base ConfigSvc PureSupport.\nFrom DeepGen Require Import PService.", ["C13"]),
     "Callbacks": ("From Deep Require Import Base PureSupport.", ["C15"]),
     "Metrics": ("From Deep Require Import Base Config PureSupport.", ["C17"]),
+    "Spans": ("From Deep Require Import Base PureSupport.", ["C20"]),
     "Hooks": ("From Deep Require Import Base Lifecycle PureSupport.", ["C14"]),
 }
 HEADER = '''(* GENERATED by harness/translate/pure.py from /repo/src/deep - do not edit.
